@@ -1,6 +1,8 @@
 """C10 — remote-executor monitor threads never lose a submitted job (controlled interleavings)."""
 from __future__ import annotations
 
+import os
+
 import random
 
 from hypothesis import strategies as st
@@ -334,8 +336,159 @@ def gen_cases(draw):
     return {"exec": name, "script": script, "plan": plan, "schedule": schedule, "rel": True}
 
 
+# ------------------------------------------------------------------------------------------ k8s reunite
+@st.composite
+def reunite_cases(draw):
+    """A resumed run re-submits jobs whose eval hashes belong to an array k8s Job that a previous run
+    left in flight (its eval-hash file is in scratch): n children, a subset re-submitted in some order."""
+    n = draw(st.integers(2, 4))
+    k = draw(st.integers(1, n))
+    order = draw(st.permutations(list(range(n))))[:k]
+    return {"reunite": "k8s", "n": n, "order": list(order)}
+
+
+def reunite_oracle(ctx: Ctx, case: dict) -> None:
+    """Real K8SExecutor threads against an in-process fake cluster holding one indexed Job with n
+    children in flight; after the re-submissions the cluster completes the array. Every re-submitted
+    job must be reported to the scheduler, exactly once, with its own child's output."""
+    import tempfile
+    import threading
+    import time
+    from types import SimpleNamespace
+    from unittest.mock import patch
+
+    from kubernetes import client
+    from redun import Scheduler, task
+    from redun.config import Config
+    from redun.executors.k8s import K8SExecutor
+    from redun.executors.k8s_utils import DEFAULT_JOB_PREFIX, K8SClient
+    from redun.executors.scratch import SCRATCH_HASHES, SCRATCH_OUTPUT, get_array_scratch_file, get_job_scratch_file
+    from redun.file import File
+    from redun.scheduler import Job
+    from redun.utils import pickle_dumps
+
+    import logging
+
+    logging.getLogger("redun").setLevel(logging.CRITICAL)
+    n, order = case["n"], case["order"]
+    uuid_ = "0123456789abcdef0123456789abcdef"
+    name = f"{DEFAULT_JOB_PREFIX}-{uuid_}-array"
+    lock = threading.Lock()
+    state = {"complete": False}
+
+    class Cluster:
+        def _job(self):
+            with lock:
+                done = state["complete"]
+            status = (client.V1JobStatus(succeeded=n, completed_indexes=f"0-{n - 1}",
+                                         conditions=[client.V1JobCondition(type="Complete", status="True")])
+                      if done else client.V1JobStatus(active=n))
+            return client.V1Job(metadata=client.V1ObjectMeta(name=name, uid="array-uid", namespace="default"),
+                                spec=client.V1JobSpec(parallelism=n, completions=n, completion_mode="Indexed",
+                                                      template=client.V1PodTemplateSpec()), status=status)
+
+        def list_job_for_all_namespaces(self, watch=False, _continue=None):
+            return SimpleNamespace(items=[self._job()], metadata=SimpleNamespace(_continue=None))
+
+        def read_namespaced_job(self, name, namespace=None):
+            return self._job()
+
+        def delete_namespaced_job(self, name, namespace=None, body=None):
+            pass
+
+        def list_pod_for_all_namespaces(self, watch=False, label_selector=None, _continue=None):
+            pods = [client.V1Pod(metadata=client.V1ObjectMeta(
+                name=f"{name}-{i}-abcde", uid=f"pod-uid-{i}", namespace="default",
+                annotations={"batch.kubernetes.io/job-completion-index": str(i)})) for i in range(n)]
+            return SimpleNamespace(items=pods, metadata=SimpleNamespace(_continue=None))
+
+        def create_namespace(self, body):
+            pass
+
+        def read_namespaced_pod_log(self, *a, **k):
+            return ""
+
+    if "add_ten" not in _reunite:
+        @task(namespace="vf_c10", name="add_ten")
+        def add_ten(x):
+            return x + 10
+
+        _reunite["add_ten"] = add_ten
+    add_ten = _reunite["add_ten"]
+    tmp = tempfile.mkdtemp(prefix="vf-c10-", dir=ctx.fresh_dir("c10k8s"))
+    scratch = os.path.join(tmp, "scratch")
+    os.makedirs(scratch)
+    cluster = Cluster()
+    scheduler = Scheduler()
+    reports: dict = {}
+
+    def done_job(job, result, job_tags=[]):
+        reports.setdefault(job.id if job else None, []).append(("done", result))
+
+    def reject_job(job, error, error_traceback=None, job_tags=[]):
+        reports.setdefault(job.id if job else None, []).append(("error", repr(error)[:120]))
+
+    scheduler.done_job = done_job
+    scheduler.reject_job = reject_job
+    executor = None
+    with patch.object(K8SClient, "core", new=cluster), patch.object(K8SClient, "batch", new=cluster), \
+            patch.object(K8SClient, "version", return_value=(1, 23)):
+        try:
+            cfg = Config({"k8s": {"type": "k8s", "image": "img", "scratch": scratch, "job_monitor_interval": "0.02",
+                                  "job_stale_time": "0.01", "code_package": "False"}})
+            executor = K8SExecutor("k8s", scheduler, cfg["k8s"])
+            jobs = []
+            for i in range(n):
+                job = Job(add_ten, add_ten(i))
+                job.eval_hash = f"evalhash{i}"
+                job.args = ((i,), {})
+                jobs.append(job)
+            File(get_array_scratch_file(scratch, uuid_, SCRATCH_HASHES)).write("\n".join(j.eval_hash for j in jobs))
+            with ctx.no_raise("K8SExecutor.submit", case):
+                for i in order:
+                    executor.submit(jobs[i])
+            for i, job in enumerate(jobs):
+                File(get_job_scratch_file(scratch, job, SCRATCH_OUTPUT)).write(pickle_dumps(i + 10), mode="wb")
+            with lock:
+                state["complete"] = True
+            deadline = time.time() + 30
+            while time.time() < deadline:
+                if all(jobs[i].id in reports for i in order):
+                    break
+                if not executor.is_running and executor.arrayer.num_pending == 0:
+                    time.sleep(0.3)
+                    break
+                time.sleep(0.02)
+        finally:
+            if executor is not None:
+                executor.stop()
+    lost = [i for i in order if jobs[i].id not in reports]
+    if lost:
+        raise Violation("lost-job:K8SExecutor:reunited-with-array-child",
+                        f"jobs re-submitted in order {order} were reunited with children of one in-flight array job; after the "
+                        f"array completed, children {lost} were never reported to the scheduler (reported: "
+                        f"{ {i: reports.get(jobs[i].id) for i in order} })", case)
+    for i in order:
+        got = reports[jobs[i].id]
+        if got != [("done", i + 10)]:
+            raise Violation("wrong-report:K8SExecutor:reunited-with-array-child",
+                            f"child {i} was reported as {got}, expected one done report with {i + 10}", case)
+
+
+_reunite: dict = {}
+
+
+def run_reunite_case(ctx: Ctx, case: dict) -> None:
+    try:
+        reunite_oracle(ctx, case)
+    finally:
+        ctx.case(case, labels=["reunite:k8s", f"children:{case['n']}", f"resubmitted:{len(case['order'])}"],
+                 nontrivial=len(case["order"]) >= 2)
+
+
 def check(ctx: Ctx) -> None:
     try:
+        ctx.given(reunite_cases(), lambda c: run_reunite_case(ctx, c), ctx.n(6, 64), shrink=False)
         if ctx.thorough:
             for name in EXECUTORS:
                 for scen in SCENARIOS:
@@ -356,6 +509,9 @@ def check(ctx: Ctx) -> None:
 
 
 def replay(ctx: Ctx, case) -> None:
+    if case.get("reunite"):
+        reunite_oracle(ctx, case)
+        return
     try:
         out = run_case(ctx, case)
         oracle(ctx, case, out)
